@@ -104,6 +104,9 @@ def run_histories(ctx: Ctx):
                 doms[k0] = (lo0 + sh, hi0 + sh)
         case = {'history': n, 'nx': nx, 'na': na, 'kpl': kpl, 'levels': levels, 'cost_mode': cost_mode, 'adaptive': adaptive, 'domains': [list(d_) for d_ in doms], 'surrogate_fidelity': list(slevels)}
         nsteps = rng.randint(2, 7 if nx < 3 else 4)
+        # every fifth scripted history without normalisation: one input domain is narrowed in the middle of the history
+        narrow_at = rng.randint(1, max(1, nsteps - 1)) if (n % 5 == 1 and not adaptive and not any(v.norm for v in comp.inputs)) else None
+        point_domain = {}      # (input, grid value) -> the domain in force when that grid point was chosen
         active = set()
         calls_per_batch = []
         # a third of the scripted histories evaluate their batches (mixed fidelities) through an executor that completes in a random order
@@ -128,6 +131,13 @@ def run_histories(ctx: Ctx):
                     if not m:
                         batches.pop(); break
                     c = rng.choice(m)
+                    if narrow_at == step:
+                        # better bounds became known: the domain of one input is narrowed between two requests.  Points chosen so far stay
+                        # where they are (their stored data stay true); points chosen from now on lie inside the new domain
+                        k0 = rng.randrange(nx); lo0, hi0 = doms[k0]; w0 = hi0 - lo0
+                        doms[k0] = (lo0 + 0.2 * w0, hi0 - 0.3 * w0)
+                        comp.inputs[names[k0]].update_domain(doms[k0], override=True)
+                        case['narrowed'] = {'input': names[k0], 'before_step': step, 'to': list(doms[k0])}
                     if slevels and step == 1:       # the second request: the first index along a surrogate-fidelity direction
                         c = tuple([0] * (len(mx) - 1) + [1])
                     comp.activate_index(tuple(c[:na]), tuple(c[na:]), executor=ex)
@@ -144,6 +154,9 @@ def run_histories(ctx: Ctx):
                                                  'added_cost': 0.0, 'added_error': 0.0})
                 calls_per_batch.append(log[n0:])
                 grids_over_time.append({v: list(td.x_grids[v]) for v in names})
+                for k_, v in enumerate(names):
+                    for g_ in td.x_grids[v]:
+                        point_domain.setdefault((v, float(g_)), doms[k_])
         except Exception as e:
             ctx.violate('C09:training-raises', f'{type(e).__name__}: {e}', case); continue
         finally:
@@ -160,7 +173,11 @@ def run_histories(ctx: Ctx):
             if (alpha, x) in seen:
                 ctx.violate('C09:evaluated-twice', f'model called twice at fidelity {alpha}, x={x} (calls {seen[(alpha, x)]} and {k})', case); break
             seen[(alpha, x)] = k
-            for xv, (lo, hi) in zip(x, doms):
+            for k_, xv in enumerate(x):
+                # the domain in force when this grid point was chosen (grids are nested: an old point is combined with new ones later on)
+                xn_ = float(comp.inputs[names[k_]].normalize(np.array([xv]))[0])
+                g_ = min(td.x_grids[names[k_]], key=lambda t: abs(float(t) - xn_))
+                lo, hi = point_domain.get((names[k_], float(g_)), doms[k_])
                 if not (lo - 1e-9 * (hi - lo) <= xv <= hi + 1e-9 * (hi - lo)):
                     ctx.violate('C09:outside-domain', f'model called at x={x} outside the domain {doms}', case); break
         # ---- stored pairs are the model's outputs at the stored grid points (normalised units)
